@@ -5,8 +5,9 @@ cd /verif
 export GOFLAGS=-mod=mod GOPROXY=off GOSUMDB=off GOTOOLCHAIN=local
 mkdir -p .build coq/Gen coq/Cases evidence replays
 cp /repo/go.sum harness/go.sum
-(cd harness && go build -tags verif -o /verif/.build/vh .)
-./.build/vh gen --repo /repo --out /verif/coq/Gen
+for d in harness/cmd/*/; do g=$(basename $d)
+  (cd harness && go build -tags verif -o /verif/.build/vh-$g ./cmd/$g) && ./.build/vh-$g gen --repo /repo --out /verif/coq/Gen || echo "setup: group $g failed to build"
+done
 python3 - <<'PY'
 import sys; sys.path.insert(0,'/verif/tools')
 import check; check.coq_project()
